@@ -212,3 +212,116 @@ Example single_leaf_nonvacuous :
   snd (run ops) = [RUnit; RUnit; RUnit; RUnit; RBool true; RBool false; ROpt (Some 20);
                    RList [([2], 20); ([2; 7], 27); ([3], 30)]; RUnit; RUnit; ROpt (Some 11)].
 Proof. vm_compute. repeat split; reflexivity. Qed.
+
+(* ---------- one leaf, equal keys allowed, no delete: insert / lookup / seek are still the multimap's ----------
+   (in one leaf the known finding K-C26-dups needs a delete; across leaves it needs a split) *)
+Definition SLw (st : state) (l : list cell) : Prop :=
+  st_root st = bt_first_data_page /\ st_next st = bt_first_data_page + 1 /\
+  (exists dead, hget (st_heap st) (st_root st) = Some (Leaf l 0 dead)) /\ wsorted l.
+
+Lemma s_insert_wsorted k v l : wsorted l -> wsorted (s_insert k v l).
+Proof.
+  induction l as [|c t IH]; cbn [s_insert]; [cbn; auto|]. intros [H1 H2].
+  destruct (lex_cmp (fst c) k) eqn:E.
+  - cbn [wsorted]. split; [|split; assumption].
+    apply lex_cmp_eq in E. constructor.
+    + cbn [fst]. unfold key in *. rewrite <- E, lex_cmp_refl. discriminate.
+    + eapply Forall_impl; [|exact H1]. cbn. intros d Hd. unfold key in *. rewrite <- E. exact Hd.
+  - cbn [wsorted]. split; [|apply IH; exact H2].
+    apply s_insert_Forall; [cbn [fst]; rewrite E; discriminate | exact H1].
+  - cbn [wsorted]. split; [|split; assumption].
+    assert (Hkc : lex_lt k (fst c)) by (apply lex_lt_of_gt; exact E).
+    constructor; [cbn [fst]; red in Hkc; unfold cell, key, bytes in *; rewrite Hkc; discriminate|].
+    eapply Forall_impl; [|exact H1]. cbn. intros d Hd X.
+    assert (Hdk : lex_lt (fst d) k) by (apply lex_lt_of_gt; exact X).
+    pose proof (lex_lt_trans _ _ _ Hdk Hkc) as Hdc. apply lex_gt_of_lt in Hdc. contradiction.
+Qed.
+
+Lemma insert_single_w st l k v : SLw st l ->
+  st_next (fst (insert st k v)) = st_next st ->
+  SLw (fst (insert st k v)) (s_insert k v l) /\ snd (insert st k v) = RUnit.
+Proof.
+  intros (Hr & Hn & [dead Hg] & Hs).
+  unfold insert, depth_fuel. cbn [ins]. rewrite Hg. unfold ins_leaf.
+  destruct (leaf_can_insert l dead k).
+  - cbn [fst snd st_next st_root st_heap]. intros _. split; [|reflexivity].
+    unfold SLw. cbn [st_next st_root st_heap]. split; [exact Hr|]. split; [exact Hn|]. split.
+    + exists dead. rewrite hget_hset_same, (leaf_insert_refines l k v Hs). reflexivity.
+    + apply s_insert_wsorted; assumption.
+  - destruct (split_leaf_entries l k v) as [a b]. rewrite Hn, alloc_3.
+    destruct (negb (leaf_fits b)); [cbn [fst st_next]; intro H; exfalso; revert H; vm_compute; discriminate|].
+    destruct (negb (leaf_fits a)); [cbn [fst st_next]; intro H; exfalso; revert H; vm_compute; discriminate|].
+    rewrite alloc_4.
+    destruct (int_can_insert [] (fst (hd ([], 0) b))); cbn [fst st_next]; intro H; exfalso; revert H; vm_compute; discriminate.
+Qed.
+
+Lemma cursor_single_w st l k : SLw st l -> cursor_lower_bound st k = inl (l, 0, length (lt_prefix k l)).
+Proof.
+  intros (Hr & Hn & [dead Hg] & Hs). unfold cursor_lower_bound.
+  rewrite (find_leaf_single st l k dead Hr Hg), settle_last, (lower_bound_sorted l k Hs).
+  reflexivity.
+Qed.
+Lemma scan_single_w st l k : SLw st l -> scan_from st k = inl (s_from k l).
+Proof.
+  intro H. unfold scan_from. rewrite (cursor_single_w st l k H), scan_leaves_last.
+  destruct (Nat.ltb (length (lt_prefix k l)) (length l)) eqn:E; [rewrite skipn_lt_prefix; reflexivity|].
+  apply Nat.ltb_ge in E. rewrite <- skipn_lt_prefix, skipn_all2 by exact E. reflexivity.
+Qed.
+Lemma lookup_single_w st l k : SLw st l -> lookup st k = inl (s_lookup k l).
+Proof.
+  intro H. unfold lookup, s_lookup. rewrite (cursor_single_w st l k H).
+  assert (E : nth_error l (length (lt_prefix k l)) = hd_error (s_from k l)).
+  { rewrite (lt_prefix_from k l) at 1. rewrite nth_error_app2 by lia. rewrite Nat.sub_diag.
+    destruct (s_from k l); reflexivity. }
+  rewrite E. destruct (s_from k l) as [|[k' v'] t]; cbn [hd_error fst snd]; [reflexivity|].
+  destruct (bytes_eqb k' k); reflexivity.
+Qed.
+
+Definition is_delete (o : op) : bool := match o with ODelete _ _ => true | _ => false end.
+
+Lemma run_single_w ops : forall st l, SLw st l -> existsb is_delete ops = false ->
+  st_next (fst (run_from st ops)) = st_next st ->
+  SLw (fst (run_from st ops)) (fst (s_run_from l ops)) /\ snd (run_from st ops) = snd (s_run_from l ops).
+Proof.
+  induction ops as [|o t IH]; intros st l H Hd Hn; cbn [run_from s_run_from fst snd] in *; [split; [exact H|reflexivity]|].
+  cbn [existsb] in Hd. apply orb_false_elim in Hd. destruct Hd as [Ho Hd].
+  pose proof (step_mono st o) as M1.
+  assert (Hstep : st_next (fst (step st o)) = st_next st ->
+                  SLw (fst (step st o)) (fst (s_step l o)) /\ snd (step st o) = snd (s_step l o)).
+  { intro Hn1. destruct o as [k v|k v|k|k lim|]; cbn [step s_step fst snd is_delete] in *.
+    - apply insert_single_w; assumption.
+    - discriminate Ho.
+    - split; [exact H|]. rewrite (lookup_single_w st l k H). reflexivity.
+    - split; [exact H|]. rewrite (scan_single_w st l k H). reflexivity.
+    - split; [exact H|reflexivity]. }
+  destruct (step st o) as [st1 r] eqn:E1. cbn [fst snd] in *.
+  pose proof (run_from_mono t st1) as M2.
+  destruct (s_step l o) as [l1 sr] eqn:E2. cbn [fst snd] in *.
+  destruct (run_from st1 t) as [st2 rs] eqn:E3. cbn [fst snd] in *.
+  assert (Hn1 : st_next st1 = st_next st) by lia.
+  destruct (Hstep Hn1) as [HS1 Hr1].
+  specialize (IH st1 l1 HS1 Hd). rewrite E3 in IH. cbn [fst snd] in IH.
+  assert (Hn2 : st_next st2 = st_next st1) by lia.
+  destruct (IH Hn2) as [HS2 Hr2].
+  destruct (s_run_from l1 t) as [l2 srs]. cbn [fst snd] in *.
+  split; [exact HS2|]. rewrite Hr1, Hr2. reflexivity.
+Qed.
+
+(* equal keys allowed: as long as the history has no delete and no page is allocated, every insert,
+   lookup (newest entry of the key), seek+scan and reopen returns what the sorted multimap returns *)
+Theorem single_leaf_dups_no_delete ops :
+  existsb is_delete ops = false -> st_next (fst (run ops)) = bt_first_data_page + 1 ->
+  snd (run ops) = snd (s_run ops) /\ scan_all (fst (run ops)) = inl (fst (s_run ops)).
+Proof.
+  intros Hd Hn. unfold run, s_run in *.
+  assert (H0 : SLw create []).
+  { unfold SLw, create. cbn. repeat split; auto. exists 0. reflexivity. }
+  destruct (run_single_w ops create [] H0 Hd Hn) as [HS Hr].
+  split; [exact Hr|]. unfold scan_all. rewrite (scan_single_w _ _ [] HS), s_from_nil. reflexivity.
+Qed.
+
+Example single_leaf_dups_nonvacuous :
+  let ops := [OInsert [7] 1; OInsert [7] 2; OInsert [5] 9; OInsert [7] 3; OLookup [7]; OScan [6] 10] in
+  existsb is_delete ops = false /\ st_next (fst (run ops)) = bt_first_data_page + 1 /\ has_dup ops = true /\
+  snd (run ops) = [RUnit; RUnit; RUnit; RUnit; ROpt (Some 3); RList [([7], 3); ([7], 2); ([7], 1)]].
+Proof. vm_compute. repeat split; reflexivity. Qed.
